@@ -822,6 +822,9 @@ func largeTargets(n int, quick bool) []int {
 	if !quick {
 		ts = append(ts, 4, 5, 6, 7, 8, 9, n/4, n/4+1, 3*n/4, 3*n/4+1, 2*n/3, n/5, n/7, 5*n/7, n/2-1, n/2+2, n-2, n-3, n-5, n/8, 7*n/8, n/16+1)
 	}
+	if n > 2007995 {
+		ts = []int{1, 2007000, 2007988, 2007989, 2007990, 2007991, n - 1}
+	}
 	seen := map[int]bool{}
 	var out []int
 	for _, t := range ts {
@@ -833,7 +836,9 @@ func largeTargets(n int, quick bool) []int {
 	return out
 }
 
-var largeNs = []int{1000, 65537, 2000000}
+// 2,100,000 reaches past the sequence numbers the library has constants for (the
+// planet's changeset state files start at 2,007,990): a directory may still hold older states
+var largeNs = []int{1000, 65537, 2000000, 2100000}
 var gapLens = []int{1, 2, 5}
 
 func largeCases(quick bool) []Case {
